@@ -354,6 +354,23 @@ def run_focus(ctx, focus_name, rng_name="main", scale=1.0):
     ctx.exhaustive = False
 
 
+def denoted_plain(hist, target):
+    """the one revision a plain identifier (no `@`, no offset, not a symbolic name) denotes, decided from the history
+    alone: a full id, a branch label, or the unique revision id longer than three characters that starts with it"""
+    if not target or any(ch in target for ch in "@+-") or target in ("head", "heads", "base"):
+        return None
+    ids = [r["id"] for r in hist]
+    if target in ids:
+        return target
+    for r in hist:
+        if target in r.get("labels", []):
+            return r["id"]
+    cands = [i for i in ids if i.startswith(target)]
+    if len(cands) == 1 and len(cands[0]) > 3:
+        return cands[0]
+    return None
+
+
 def judge(ctx, focus, collected, sds):
     """correspondence + Lean spec checkers on the implementation's output"""
     spec_ops = []
@@ -405,6 +422,14 @@ def judge(ctx, focus, collected, sds):
             if mm and mm.group(2) in [r["id"] for r in c["revs"]] and int(mm.group(3)) > 0 and it and len(it) == 1 and it[0] is not None:
                 spec_ops.append({"op": "rev.spec.steps", **h, "n": int(mm.group(3)), "from": it[0], "to": mm.group(2)})
                 spec_meta.append(("usteps", inp, impl, (mm.group(2), int(mm.group(3)), it[0])))
+        elif focus.prop == "C01" and impl.get("err") == "resolution" and "steps" in model and isinstance(tgt, str):
+            # the target is refused as unknown although it denotes one revision (a full id, a label, or the one
+            # revision id - of more than three characters, see finding F13 - that starts with it): no plan at all
+            d = denoted_plain(c["revs"], tgt)
+            if d is not None:
+                ctx.fail(inp, "refused-target: upgrade %r is refused as unresolvable although it denotes exactly revision %r; "
+                              "the plan of the missing revisions is %s" % (tgt, d, [s_["rev"] for s_ in model["steps"]]),
+                         impl=impl, tags=["refused", "partial-id"])
         elif focus.prop == "C02":
             pt = parse_impl_downgrade_target(sd, c["rows"], c["target"])
             if pt is not None and not names_a_branch(c["target"]):
